@@ -5,21 +5,23 @@ import math
 
 import numpy as np
 
-STEPS = ['rz', 'rw', 'ru', 'dx', 'ly', 'a1', 'a2', 'a3', 'e1', 'ob', 'c1', 'c2']
+STEPS = ['rz', 'rw', 'ru', 'dx', 'ly', 'a1', 'a2', 'a3', 'e1', 'ob', 'c1', 'c2', 'u0']
+CANONICAL = ['rz', 'rw', 'ru', 'dx', 'ly', 'a1', 'a2', 'a3', 'e1', 'ob', 'c1', 'c2']
 BEFORE = [('rz', 'a1'), ('ly', 'a1'), ('rz', 'a2'), ('ly', 'a2'), ('rw', 'a3'), ('ly', 'a3'),
           ('dx', 'e1'), ('rz', 'e1'),
+          ('ly', 'u0'), ('rz', 'u0'),        # u0: an optional early use of the rule (nothing depends on it)
           ('rz', 'ob'), ('rw', 'ob'), ('ru', 'ob'), ('dx', 'ob'),
           ('a1', 'c1'), ('a2', 'c1'), ('a3', 'c1'), ('dx', 'c1'), ('rw', 'c1'),
           ('e1', 'c2'), ('rw', 'c2'), ('ru', 'c2'),
           ]
 RVARS = dict(rz=2, rw=1, ru=1)
 ADAPTS = ['a1', 'a2', 'a3']
-RULE_USES = ['c1']
+RULE_USES = ['c1', 'u0']
 EXPR_MAKE = 'e1'
 EXPR_USES = ['c2']
 
 
-def build(order):
+def build(order, solve=True):
     from rsome import ro
     m = ro.Model()
     o = {}
@@ -40,6 +42,13 @@ def build(order):
             o['y'][1].adapt(o['z'][1])
         elif s == 'a3':
             o['y'][1].adapt(o['w'])
+        elif s == 'u0':
+            # a use of the rule that is thrown away; while the rule has no adaptation yet it is an ordinary decision and
+            # z*y is a legal bi-affine term (afterwards the product would be a rule times a random variable: C10)
+            if not any(a in order[:order.index('u0')] for a in ADAPTS):
+                o['tmp'] = o['z'][0] * o['y'][0]
+            else:
+                o['tmp'] = o['y'][0] + 0 if len(order) % 2 else 2 * o['y'][0] - 1
         elif s == 'e1':
             o['e'] = o['x'][1] * o['z'][0] - o['x'][0]
         elif s == 'ob':
@@ -52,6 +61,8 @@ def build(order):
             m.st((o['e'] + o['w'] * o['x'][1] + 0.5 * o['u'] * o['x'][1] <= 2).forall(abs(o['z']) <= 1, abs(o['w']) <= 0.5, abs(o['u']) <= 1))
         else:
             raise ValueError(s)
+    if not solve:
+        return dict(obj=None)
     m.solve(display=False)
     sol = m.solution
     if sol is None or (isinstance(sol.objval, float) and math.isnan(sol.objval)):
@@ -66,7 +77,26 @@ def build(order):
 def replay(job):
     import traceback
     out = dict(tid=job['tid'])
-    for key, order in (('canonical', STEPS), ('order', job['order'])):
+    if job.get('illegal'):
+        # the last step is an adapt() on a rule that was already used: every step before it is legal, the last one must raise
+        try:
+            build(job['order'][:-1], solve=False)
+        except Exception as e:
+            tb = traceback.extract_tb(e.__traceback__)
+            if not any('/rsome/' in fr.filename for fr in tb):
+                raise
+            out['prefix_exc'] = '%s: %s' % (type(e).__name__, str(e)[:150])
+            return out
+        try:
+            build(job['order'], solve=False)
+            out['illegal_outcome'] = 'accepted'
+        except Exception as e:
+            tb = traceback.extract_tb(e.__traceback__)
+            if not any('/rsome/' in fr.filename for fr in tb):
+                raise
+            out['illegal_outcome'] = 'raised:%s' % type(e).__name__
+        return out
+    for key, order in (('canonical', CANONICAL), ('order', job['order'])):
         try:
             out[key] = build(order)
         except Exception as e:
